@@ -12,9 +12,10 @@
      - `consumed` itself is a prefix of some sentence: the reported index is not too early
        (C03_all_reject_exact; LR/Viable.v: every item of a state is reached from the state's
        kernel by finitely many closure steps, so what is on the stack can always be completed).
-   NOT proved: for grammars with unproductive nonterminals, that the index is the one at which a
-   canonical LR(1) parser stops.  The check decides it per input with an Earley recogniser / a
-   brute-force canonical LR(1) parser. *)
+   For grammars with unproductive nonterminals the property asks for the index at which a canonical
+   LR(1) parser of the grammar stops; that agreement is NOT proved (the check decides it per input
+   with a brute-force canonical LR(1) parser), and C03_productivity_hypothesis_is_necessary shows
+   that the sentence-prefix reading cannot hold there. *)
 From Coq Require Import List Arith.
 From Kiki Require Import Base.Ord Base.Chars Data LR.Driver LR.Grammar LR.Inv LR.Complete LR.ErrPos
   LR.Validate LR.ValidateProofs.
@@ -125,6 +126,66 @@ Proof.
     apply wf_node; [reflexivity|constructor].
 Qed.
 
+(* ---------- why the property is quantified over grammars whose nonterminals are all productive ----------
+   The property's quantifier reads "for all accepted grammars in which every nonterminal derives at
+   least one token sequence ...; for grammars with unproductive nonterminals the index is the one at
+   which a canonical LR(1) parser of the grammar stops".  The restriction cannot be dropped: `B`
+   below derives no token sequence; the grammar is accepted (it is LALR(1)); its only sentence is
+   `A C`.  On the input `A Bt` the emitted parser shifts both tokens and rejects only at the end of
+   the input, although no sentence begins with `A Bt` — and so does every canonical LR(1)/LALR(1)
+   parser of this grammar, `A Bt` being a viable prefix.  This is a witness that the hypothesis of
+   C03_all_reject_exact is needed, NOT a violation of the property. *)
+Definition C03_dead_src : str := s2l "start S
+enum S { A(_: $A B) C(_: $A _: $C) }
+struct B(_: $Bt B)
+terminal Tok { $A: () $Bt: () $C: () }
+".
+
+Definition C03_dead_pt : option ptable :=
+  Eval vm_compute in
+    match generate_full ho_id [] C03_dead_src with
+    | Ok (out, _) => ptable_of (go_file out) (go_table out)
+    | _ => None
+    end.
+
+Theorem C03_productivity_hypothesis_is_necessary :
+  exists out text pt,
+    perm_hash_order ho_id /\
+    generate_full ho_id [] C03_dead_src = Ok (out, text) /\
+    ptable_of (go_file out) (go_table out) = Some pt /\
+    parse (fun k : nat => k) pt 100 [0; 1] = OReject None /\
+    forall z, ~ sentence (fun k : nat => k) pt ([0; 1] ++ z).
+Proof.
+  destruct (generate_full ho_id [] C03_dead_src) as [[out text]| | |] eqn:E; try (vm_compute in E; discriminate).
+  assert (Hpt : ptable_of (go_file out) (go_table out) = C03_dead_pt).
+  { assert (H : match generate_full ho_id [] C03_dead_src with Ok (o, _) => ptable_of (go_file o) (go_table o) | _ => None end = C03_dead_pt)
+      by (vm_compute; reflexivity).
+    rewrite E in H. exact H. }
+  unfold C03_dead_pt in Hpt.
+  match type of Hpt with _ = Some ?p => exists out, text, p; set (pt := p) in * end.
+  split; [split; [intros l; apply Permutation.Permutation_refl|split; intros l; apply Permutation.Permutation_refl]|].
+  split; [reflexivity|]. split; [exact Hpt|]. split; [vm_compute; reflexivity|].
+  (* B (nonterminal 1) derives nothing *)
+  assert (HB : (forall x t, wf (fun k : nat => k) pt x t -> x <> PN 1) /\
+               (forall xs ts, wfs (fun k : nat => k) pt xs ts -> ~ In (PN 1) xs)).
+  { apply wf_wfs_mind.
+    - intros p0. discriminate.
+    - intros r ru ch Hr _ IH. destruct r as [|[|[|r]]]; cbn in Hr; try (destruct r; discriminate); injection Hr as <-; cbn [pr_rhs pr_lhs] in *.
+      + exfalso. apply IH. right. left. reflexivity.
+      + discriminate.
+      + exfalso. apply IH. right. left. reflexivity.
+    - intros [].
+    - intros x xs t ts _ IHx _ IHxs [H|H]; [exact (IHx H)|exact (IHxs H)]. }
+  intros z (t & Hwf & Hy). cbn [pt_start_nt pt] in Hwf.
+  inversion Hwf as [|r ru ch Hr Hch Hl]; subst.
+  destruct r as [|[|[|r]]]; cbn in Hr; try (destruct r; discriminate); injection Hr as <-; cbn [pr_rhs pr_lhs] in *.
+  - exfalso. apply (proj2 HB _ _ Hch). right. left. reflexivity.
+  - inversion Hch as [|x xs t1 ts1 Ht1 Hts1]; subst. inversion Hts1 as [|x2 xs2 t2 ts2 Ht2 Hts2]; subst. inversion Hts2; subst.
+    inversion Ht1; subst. inversion Ht2; subst. cbn in Hy. discriminate.
+  - discriminate.
+Qed.
+
+Print Assumptions C03_productivity_hypothesis_is_necessary.
 Print Assumptions C03_reject_position.
 Print Assumptions C03_returns_the_unconsumed_head.
 Print Assumptions C03_all_reject_position.
